@@ -1,10 +1,47 @@
 package ipfix
 
-import "net"
+import (
+	"fmt"
+	"math/rand"
+	"net"
+	"net/rpc"
+	"time"
+)
+
+// the peer collector of the jobs: a second template cache behind a real net/rpc server on 127.a.b.c:8085 (the port
+// NewRPCClient insists on; a random loopback address keeps concurrent runs apart), and ONE client connection used
+// for every fetch, as a collector that keeps its peer connections open would
+var vPeer struct {
+	irpc   *IRPC
+	client *RPCClient
+	err    error
+}
+
+func vPeerInit() {
+	if vPeer.irpc != nil || vPeer.err != nil {
+		return
+	}
+	rnd := rand.New(rand.NewSource(time.Now().UnixNano()))
+	for try := 0; try < 20; try++ {
+		host := fmt.Sprintf("127.%d.%d.%d", 1+rnd.Intn(250), rnd.Intn(250), 2+rnd.Intn(250))
+		l, err := net.Listen("tcp", net.JoinHostPort(host, "8085"))
+		if err != nil {
+			vPeer.err = err
+			continue
+		}
+		srv := rpc.NewServer()
+		vPeer.irpc = NewRPC(GetCache(""))
+		srv.RegisterName("IRPC", vPeer.irpc)
+		go srv.Accept(l)
+		vPeer.client, vPeer.err = NewRPCClient(host)
+		return
+	}
+}
 
 // vExtraOp: the two ways the cache is touched besides decoding (memcache_rpc.go):
-//   peerget    - a peer collector asks for a template: IRPC.Get
-//   peerinsert - a template a peer answered with is stored: what RPC() does with the reply
+//
+//	peerget    - a peer collector asks for a template: IRPC.Get
+//	peerinsert - a template a peer answered with is stored: what RPC() does with the reply
 func vExtraOp(cache MemCache, m vMsg) (res vRes) {
 	res.Recs = [][]vField{}
 	res.ExpOK = true
@@ -31,6 +68,38 @@ func vExtraOp(cache MemCache, m vMsg) (res vRes) {
 			tr.FieldSpecifiers = append(tr.FieldSpecifiers, TemplateFieldSpecifier{ElementID: uint16(f[0]), Length: uint16(f[1])})
 		}
 		cache.insert(uint16(m.TID), ip, tr)
+		res.St = "ok"
+	case "preset": // a new peer cache for this job
+		vPeerInit()
+		if vPeer.err != nil {
+			res.St, res.Err = "infra", vPeer.err.Error()
+			return
+		}
+		vPeer.irpc.mCache = GetCache("")
+		res.St = "ok"
+	case "pannounce": // the PEER learns a template from its own exporters
+		vPeerInit()
+		if vPeer.err != nil {
+			res.St, res.Err = "infra", vPeer.err.Error()
+			return
+		}
+		if _, err := NewDecoder(ip, vBytes(m.Buf)).Decode(vPeer.irpc.mCache); err != nil {
+			res.St, res.Err = "reject", err.Error()
+			return
+		}
+		res.St = "ok"
+	case "peerfetch": // what RPC() does on a cache miss: ask the peer over the wire, store the answer
+		vPeerInit()
+		if vPeer.err != nil {
+			res.St, res.Err = "infra", vPeer.err.Error()
+			return
+		}
+		tr, err := vPeer.client.Get(RPCRequest{ID: uint16(m.TID), IP: ip})
+		if err != nil {
+			res.St, res.Err = "none", err.Error()
+			return
+		}
+		cache.insert(uint16(m.TID), ip, *tr)
 		res.St = "ok"
 	default:
 		res.St = "panic"
